@@ -99,3 +99,65 @@ def service_in_subpackage(case):
     import os
     root = os.path.commonprefix([f["package"] for f in api.get("files", [])]).rstrip(".")
     return any(f["package"] != root and f.get("services") for f in api.get("files", []))
+
+
+def dep_keyword_path(case):
+    """C12 table case: a path through a non proto-plus dependency message whose field is a Python keyword."""
+    import keyword
+    return str(case.get("position", "")).startswith("dep-") and keyword.iskeyword(case.get("word", ""))
+
+
+def dep_reserved_flattened(case):
+    """a method_signature path whose leaf is a reserved-word field of a message defined in a dependency-only file"""
+    from .strategies import RESERVED
+    api = _api(case)
+    targets = api.get("file_to_generate")
+    if not targets:
+        return False
+    dep_msgs = {}
+    for f in api["files"]:
+        if f["name"] not in targets:
+            for full, m, _p in M.walk_messages(f):
+                dep_msgs[full] = m
+    for _f, _s, m in M.all_methods(api):
+        for sig in m.get("signatures", []):
+            for path in [p for p in sig.split(",") if "." in p]:
+                cur = M.find_message(api, m["input"])
+                segs = path.split(".")
+                for i, seg in enumerate(segs):
+                    fld = next((x for x in (cur or {}).get("fields", []) if x["name"] == seg), None)
+                    if fld is None:
+                        break
+                    if i == len(segs) - 1:
+                        if seg in RESERVED and any(cur is dm for dm in dep_msgs.values()):
+                            return True
+                    else:
+                        cur = M.find_message(api, fld.get("type_name", "")) if fld.get("type") == "message" else None
+    return False
+
+
+def dep_flattened_composite(case):
+    """a method_signature path through a message of a dependency-only file whose leaf is repeated, a map or a message"""
+    api = _api(case)
+    targets = api.get("file_to_generate")
+    if not targets:
+        return False
+    dep_msgs = []
+    for f in api["files"]:
+        if f["name"] not in targets:
+            dep_msgs.extend(m for _full, m, _p in M.walk_messages(f))
+    for _f, _s, m in M.all_methods(api):
+        for sig in m.get("signatures", []):
+            for path in [p for p in sig.split(",") if "." in p]:
+                cur = M.find_message(api, m["input"])
+                segs = path.split(".")
+                for i, seg in enumerate(segs):
+                    fld = next((x for x in (cur or {}).get("fields", []) if x["name"] == seg), None)
+                    if fld is None:
+                        break
+                    if i == len(segs) - 1:
+                        if any(cur is dm for dm in dep_msgs) and (fld.get("repeated") or fld["type"] in ("map", "message")):
+                            return True
+                    else:
+                        cur = M.find_message(api, fld.get("type_name", "")) if fld.get("type") == "message" else None
+    return False
